@@ -1,7 +1,68 @@
 import GluonModel.Sexp
-open GluonModel
+import GluonModel.Surf
+import GluonModel.SurfParse
+import GluonModel.SurfTy
+import GluonModel.SurfTyParse
+import GluonModel.ModGlobal
+open GluonModel GluonModel.Surf GluonModel.SurfTy GluonModel.ModGlobal
+
+def resClass : Res → String
+  | .ok _ => "ok"
+  | .error .arith => "err:arith"
+  | .error .unmatched => "err:unmatched"
+  | .error (.user _) => "err:user"
+  | .error .fuel => "fuel"
+  | .error (.wrong w) => "wrong:" ++ w
+
+/-- `tc <annotated program> <type>`: the program is typed by the model (see below) and the
+    reference evaluator neither goes wrong nor returns a value of another shape -/
+def handleTc (e t : Sexp) : String :=
+  match parseExpr (stripAnn e), parseSTy t with
+  | some e, some τ =>
+    let r := eval 100000 [] e
+    match r with
+    | .ok v => if shapeOk surfDecls v τ then "(typed ok)" else "(shape-mismatch)"
+    | _ => "(typed " ++ resClass r ++ ")"
+  | _, _ => "bad-request"
+
+def kindVal : Val → String
+  | .int _ => "int"
+  | .str _ => "str"
+  | .data .. => "data"
+  | .arr _ => "arr"
+  | _ => "fn"
+
+def sampleVal : String → Option (Val × STy)
+  | "int" => some (.int 7, .int)
+  | "str" => some (.str "s", .str)
+  | "rec" => some (.data 0 [.int 1, .str "x"], .recd [.int, .str])
+  | "fn" => some (.clos ["x"] (.prim "+" (.var "x") (.int 1)) [], .fn .int .int)
+  | "arr" => some (.arr [.int 1, .int 2], .arr .int)
+  | _ => none
+
+/-- `glob R I K`: module of kind K, wrapped in IO iff I, loaded with run_io = R -/
+def handleGlob (r i : Nat) (k : String) : String :=
+  match sampleVal k with
+  | none => "bad-request"
+  | some (v, t) =>
+    let g : Global := if i == 1 then ⟨.io t, .action v⟩ else ⟨.plain t, .val v⟩
+    let stored := globalInner (r == 1) g
+    let imp := importerType g
+    let kind := match stored.value with
+      | .action _ => "fn"
+      | .val v => kindVal v
+    let impS := if isIO imp then "io" else "plain"
+    let useS := match useImported (r == 1) stored imp with
+      | .ok => "ok"
+      | .wrong => "wrong"
+    s!"(stored {kind} importer {impS} use {useS})"
 
 def handle : List Sexp → String
-  | _ => "unimplemented"
+  | [.atom "tc", e, t] => handleTc e t
+  | [.atom "glob", r, i, .atom k] =>
+    match r.toNat?, i.toNat? with
+    | some r, some i => handleGlob r i k
+    | _, _ => "bad-request"
+  | _ => "bad-request"
 
 def main : IO Unit := driverLoop handle
